@@ -212,6 +212,7 @@ type World struct {
 	adv      *wallet.Wallet
 	Crafted  []accountant.Vertex
 	syncStuck [][2]int
+	Mutants  []mutantRec
 	stuck    []*opHandle
 }
 
